@@ -676,7 +676,8 @@ let cmd_tool = function
          | Some o -> Hashtbl.replace outs (int_of_string id) o; emit "tool migrate ok"
          | None -> emit "tool migrate Err")
      | None -> emit "tool migrate Err")
-  | ["install"; _] -> tainted_ref := true; emit "tool install ok"    (* a blob file is replaced by a tool's output: outside the storage model *)
+  | ["recover_quarantined"; _; _; _] -> tainted_ref := true; emit "*"   (* the file in the quarantine directory is outside the model *)
+  | ["install"; _] -> tainted_ref := true; emit "*"    (* a blob file is replaced by a tool's output: outside the storage model *)
   | _ -> emit "*"
 let () = handlers := ("tool", cmd_tool) :: ("flip", cmd_flip) :: (List.filter (fun (n, _) -> n <> "flip") !handlers)
 
